@@ -8,8 +8,9 @@ CLAIMED = {
         "domains": ["codec"],
         "text": "TLC checks the codec specification (odometer vs closed form, positional value, shortlex order) on all 18278 "
                 "column names; every library call on all columns/names, on boundary+random (thorough: all 1048576) rows x "
-                "boundary columns x lock combinations, four range shapes and legal sheet names is recorded and validated by "
-                "TLC against the same operators",
+                "boundary columns x lock combinations, four range shapes and legal sheet names - each string parsed into a fresh "
+                "object and into one object reused for the whole batch - is recorded and validated by TLC against the same "
+                "operators",
         "note": TRUST + ". Whole-row/column ranges are checked through structs::Range, not through helper::range "
                         "(whose contract excludes them).",
         "technique": "explicit TLA+ spec (Codec.tla) model-checked with TLC + TLC trace validation of recorded library calls",
@@ -42,12 +43,17 @@ CLAIMED = {
     "C16": {
         "domains": ["sst"],
         "text": "TLC checks ConcSave.tla (one action per linearisation point of make_buffer) over all interleavings of 2-3 "
-                "savers for five string-set scenarios: own strings, part iff relationship, nothing foreign, termination; "
-                "and refutes the shared-table design. Every complete interleaving (3 savers: simulated) is executed as a "
-                "schedule on real threads calling write_writer, released yield point by yield point through the "
-                "cfg(umya_verif) hooks; TLC validates each step's control point and the decoded output files.",
+                "savers for seven scenarios (string sets equal / disjoint / overlapping / one empty / three savers; a lazily "
+                "reopened workbook with one or with no loaded sheet): own strings, part iff relationship, nothing foreign, "
+                "termination; and refutes the shared-table design. Every complete interleaving (3 savers: simulated) is "
+                "executed as a schedule on real threads calling write_writer / xlsx::write, released yield point by yield "
+                "point through the cfg(umya_verif) hooks; in addition free-running threads (no scheduler; shared references, "
+                "clones, unrelated and lazily loaded workbooks with thousands of cells over few labels, several rounds) "
+                "exercise interleavings below the yield points; TLC judges every decoded output file by the property's "
+                "predicates (control-point deviations are notes).",
         "note": TRUST + ", pydec/sst_view.py, the cooperative scheduler of harness/src/bin/sst.rs. Granularity = the hook's "
-                        "yield points; code between two yield points is assumed not to touch state shared between savers.",
+                        "yield points for the exhaustive part; interleavings inside one step are only sampled by the free-running cases "
+                        "(whose replay is not deterministic).",
         "technique": "explicit TLA+ spec (ConcSave.tla) model-checked with TLC (safety + liveness); TLC-enumerated schedules "
                      "replayed on real threads via source hooks; traces validated by TLC",
     },
